@@ -37,7 +37,12 @@ type travModel struct {
 	hL   *ssa.BasicBlock
 	node map[*ssa.BasicBlock]*ssa.Phi
 	nx   map[*ssa.BasicBlock]*ssa.Phi
-	LT   int64
+	// cc: a cached candidate - a second node register of a loop head that holds the cursor's successor on the current
+	// level (succ := node.fingers[level] bound before the inner loop and refreshed after every advance); related to the
+	// cursor by the invariant cc = N.fingers[L + ccOff], assumed at the start of a segment and proved at every arrival
+	cc    map[*ssa.BasicBlock]*ssa.Phi
+	ccOff map[*ssa.BasicBlock]int64
+	LT    int64
 	GT   int64
 	// results
 	okCmp, okLvl, okEff bool
@@ -318,7 +323,8 @@ func traversalRule(c *core.Ctx, name string, fn *ssa.Function, LT, GT int64) str
 	if problems(c, "compare-normal-form", name, an) {
 		return ""
 	}
-	m := &travModel{c: c, name: name, fn: fn, an: an, node: map[*ssa.BasicBlock]*ssa.Phi{}, nx: map[*ssa.BasicBlock]*ssa.Phi{}, LT: LT, GT: GT, okCmp: true, okLvl: true, okEff: true}
+	m := &travModel{c: c, name: name, fn: fn, an: an, node: map[*ssa.BasicBlock]*ssa.Phi{}, nx: map[*ssa.BasicBlock]*ssa.Phi{}, cc: map[*ssa.BasicBlock]*ssa.Phi{}, ccOff: map[*ssa.BasicBlock]int64{}, LT: LT, GT: GT, okCmp: true, okLvl: true, okEff: true}
+	second := map[*ssa.BasicBlock]*ssa.Phi{}
 	if len(an.Headers) == 0 {
 		c.Undecided("level-loops", name, fn.Pos(), "the traversal has no loop")
 		return ""
@@ -332,8 +338,12 @@ func traversalRule(c *core.Ctx, name string, fn *ssa.Function, LT, GT int64) str
 			switch {
 			case isNodePtrType(phi.Type()):
 				if m.node[h] != nil {
-					c.Undecided("traversal-effects", name, phi.Pos(), "a loop head carries two node cursors")
-					return ""
+					if second[h] != nil {
+						c.Undecided("traversal-effects", name, phi.Pos(), "a loop head carries three node registers")
+						return ""
+					}
+					second[h] = phi
+					continue
 				}
 				m.node[h] = phi
 			case isNodeSliceType(phi.Type()):
@@ -356,6 +366,50 @@ func traversalRule(c *core.Ctx, name string, fn *ssa.Function, LT, GT int64) str
 	if m.lp == nil {
 		c.Fail("level-loops", name, fn.Pos(), "no level counter found")
 		return ""
+	}
+	// two node registers at one head: one is the cursor, the other a cached successor of it - decided from the arrivals
+	for h, b := range second {
+		a := m.node[h]
+		role := func(cur, cache *ssa.Phi) (int64, bool) {
+			var d int64
+			n := 0
+			for _, ps := range an.Segs {
+				for _, q := range ps {
+					if q.To != h {
+						continue
+					}
+					idx, ok := isFingerAt(q.PhiOut[cache], q.PhiOut[cur])
+					if !ok {
+						return 0, false
+					}
+					var lq *ir.Term
+					if h == m.hL {
+						lq = q.PhiOut[m.lp]
+					} else if q.End != nil {
+						lq = q.End.Reg(m.lp)
+					}
+					k, ok := linOffset(idx, lq)
+					if !ok || (n > 0 && k != d) {
+						return 0, false
+					}
+					d = k
+					n++
+				}
+			}
+			return d, n > 0
+		}
+		if m.nx[h] != nil {
+			c.Undecided("traversal-effects", name, b.Pos(), "a loop head carries two node registers and a finger-slice register")
+			return ""
+		}
+		if d, ok := role(a, b); ok {
+			m.cc[h], m.ccOff[h] = b, d
+		} else if d, ok := role(b, a); ok {
+			m.node[h], m.cc[h], m.ccOff[h] = b, a, d
+		} else {
+			c.Undecided("traversal-effects", name, b.Pos(), "a loop head carries two node registers and neither is the other's successor on the current level at every arrival")
+			return ""
+		}
 	}
 	for _, h := range an.Headers {
 		if m.node[h] == nil {
@@ -419,7 +473,24 @@ func (m *travModel) segment(p *ir.Path, list, head, pathT *ir.Term, recordsPath 
 	} else {
 		n = head
 	}
+	fingerAt := func(node, lvl *ir.Term, d int64) *ir.Term {
+		idx := lvl
+		if d != 0 {
+			idx = ir.MkBin("+", lvl, ir.Const(fmt.Sprint(d)))
+		}
+		return &ir.Term{Op: "load", Aux: "0", Args: []*ir.Term{{Op: "iaddr", Args: []*ir.Term{fingersOf(node), idx}}}}
+	}
+	var cv *ir.Term
+	if from != nil && m.cc[from] != nil && l != nil {
+		cv = an.Start[from].Reg(m.cc[from])
+	}
 	sigma := func(t *ir.Term) *ir.Term {
+		if t == nil {
+			return t
+		}
+		if cv != nil {
+			t = substTerm(t, cv, fingerAt(n, l, m.ccOff[from]))
+		}
 		if x != nil {
 			return substTerm(t, x, fingersOf(n))
 		}
@@ -439,6 +510,13 @@ func (m *travModel) segment(p *ir.Path, list, head, pathT *ir.Term, recordsPath 
 		}
 	}
 	stores := nonLocalStores(p)
+	// the cached successor at the arrival is the successor of the arriving cursor on the arriving level
+	if to != nil && m.cc[to] != nil && l2 != nil {
+		cc2 := sigma(p.PhiOut[m.cc[to]])
+		if want := fingerAt(n2, l2, m.ccOff[to]); !ir.Same(cc2, want) {
+			m.failEff(lastPos(p), "the cached successor arrives as %s, expected the arriving cursor's successor on the level (%s)", short(cc2), short(want))
+		}
+	}
 
 	// ---- the candidate test of this segment
 	var cand, idx *ir.Term
